@@ -125,6 +125,30 @@ type State interface {
 
 const KW_DeleteWith = "deleteWith"
 
+// dependsOn reports whether the fact's deleteWith property names the
+// given id literally.
+//
+// deleteDependencies finds its candidates with a search, and a search
+// pattern reads an id that starts with '?' as a variable, which
+// matches every element of every deleteWith.
+func dependsOn(fact map[string]interface{}, id string) bool {
+	switch targets := fact[KW_DeleteWith].(type) {
+	case []interface{}:
+		for _, target := range targets {
+			if s, ok := target.(string); ok && s == id {
+				return true
+			}
+		}
+	case []string:
+		for _, s := range targets {
+			if s == id {
+				return true
+			}
+		}
+	}
+	return false
+}
+
 // Here's a little gear to inject a fact's id into the fact itself.
 // Why?  Because a rule condition might want to bind variables to ids.
 //
